@@ -11,11 +11,9 @@ Proof.
   unfold inputs_ok. intros H. apply andb_true_iff in H as [H H3]. apply andb_true_iff in H as [H1 H2]. auto.
 Qed.
 
-Lemma known_c11_inv c id : known_c11 c id = false ->
-  c11_0003_zero_tuples c = false /\ c11_casefold c id = false /\ c11_0007_ctrl c id = false.
-Proof.
-  unfold known_c11. intros H. apply orb_false_iff in H as [H H3]. apply orb_false_iff in H as [H1 H2]. auto.
-Qed.
+(** the only class of ids left out (known finding c11-casefold-index) *)
+Lemma known_c11_inv c id : known_c11 c id = false -> c11_casefold c id = false.
+Proof. unfold known_c11. exact (fun H => H). Qed.
 
 Theorem map_correct c id dg :
   cfg_ok c = true -> inputs_ok c id dg = true -> known_c11 c id = false ->
@@ -23,7 +21,7 @@ Theorem map_correct c id dg :
 Proof.
   intros Hok Hin Hk.
   destruct (inputs_ok_inv _ _ _ Hin) as (W1 & W2 & W3).
-  destruct (known_c11_inv _ _ Hk) as (K1 & K2 & K3).
+  pose proof (known_c11_inv _ _ Hk) as K2.
   destruct (c_ext c) eqn:E.
   - now apply map_0002_correct.
   - now apply map_0003_correct.
